@@ -62,8 +62,8 @@ def isWindowsDriveAbsolutePath : List Nat → Option (List Nat)
 
 /-- detail::pathname_has_windows_drive on a (decoded) pathname -/
 def pathnameHasWindowsDrive : List Nat → Bool
-  | [s, a, b] => isWindowsSlash s && isWindowsDrive a b
-  | s :: a :: b :: c :: _ => isWindowsSlash c && isWindowsSlash s && isWindowsDrive a b
+  | [s, a, b] => isWindowsSlash s && isNormalizedWindowsDrive a b
+  | s :: a :: b :: c :: _ => isWindowsSlash c && isWindowsSlash s && isNormalizedWindowsDrive a b
   | _ => false
 
 def sFilePrefix := asciiStr "file://"
